@@ -40,8 +40,9 @@ CLAIMED = {
         tech='Lean 4 proof (factorisation by schema induction, bisimulation) + exhaustive-over-corpus correspondence and oracle'),
     "C06": dict(
         text="Lean 4 theorems for every schema: count = number of leaves; max_depth, max_bits and max_length are each attained by some leaf and exceeded by none (generic per-level weights, digits monotone); buffers_suffice: an index array of max_depth slots holds every node's key (= its position tuple) and, when max_bits <= 63, a packed word holds every node's key using at most max_bits bits; path_buffer_suffices: a Path buffer of max_length + max_depth separators holds the Path of every node. Every run compares Metadata and a recording Walk with brute force on every corpus type (array lengths straddling powers of 2 and 10) and transcodes every node into buffers sized from the metadata."
-             " source_internal_is_model / source_internal_array_is_model / source_leaf_and_max_length: <Metadata as Walk>::internal, leaf and Metadata::max_length as TRANSLATED from walk.rs on every run never panic on a well-formed node and return exactly the model's merge (all four fields).",
-        note='A user-supplied Walk seeing every node with its declared children is checked by the run only (Metadata is the modelled walker). bv_decide axioms via the packed-word lemmas. Assumes count < 2^64.',
+             " source_internal_is_model / source_internal_array_is_model / source_leaf_and_max_length: <Metadata as Walk>::internal, leaf and Metadata::max_length as TRANSLATED from walk.rs on every run never panic on a well-formed node and return exactly the model's merge (all four fields)."
+             ' walker_sees_every_node: for an ARBITRARY Walk implementation traverse_all is the evaluation of the walker on the declared structure (every internal node once, bottom-up, children in order, its lookup).',
+        note='bv_decide axioms via the packed-word lemmas. Assumes count < 2^64.',
         tech='Lean 4 proof by structural induction + correspondence/oracle run'),
     "C09": dict(
         text="Lean 4 theorems on the definitions regenerated from packed.rs: encode (for every node whose bit weight fits, Transcode-for-Packed succeeds without panic, = pushAll of the path's fields, uses exactly the path's bit weight), decode (the packed key used as a key walks to exactly that node: kind, depth, indices), unique (distinct nodes, distinct keys), bounded (weight <= max_bits, attained), order (the packed keys of the leaves in iteration order are strictly increasing), append_stable (appending children without changing a level's width leaves existing keys unchanged), level_roundtrip. Every run checks value, decode, uniqueness, order and width of the packed key of every node of every corpus type.",
@@ -49,21 +50,25 @@ CLAIMED = {
         tech='Lean 4 proof (bv_decide word lemmas + list/path induction) + correspondence/oracle run'),
     "C11": dict(
         text="Lean 4 theorems for every well-formed type: limited_exact (for EVERY depth limit D and every target whose callbacks do not panic, polling yields, in order and once each, one item per leaf of the type cut off at depth D — depth_limited_items: exactly the leaves of depth <= D and the internal nodes at depth D — as the node with the transcoded target, or Err(depth) where the target refused the key at that depth; then None for ever; at most D+2 loop passes per call, no panic site); rooted_exact (iteration rooted at the node any key denotes = the leaves at or below it, by simulation with the subtree's iterator); full_depth_exact; exact_size_remaining; fused; targets_do_not_panic ((), index arrays of any capacity). Every run iterates every corpus type for every depth limit, every (sampled) node as root in several key representations, index/path capacities from 0 to sufficient, polling past the end."
-             " source_next_is_model: one pass through the loop of NodeIter::next as TRANSLATED from iter.rs on every run (statement-level Rust-subset translator, the two transcode calls as parameters) equals the model's IterSt.step for every type, target, depth limit and state; NodeIter::default likewise.",
-        note="The combination 'rooted AND limited below the subtree's depth / without capacity' follows from the same lemmas (poll_lift, poll_init_G) but is not stated as its own theorem; it is covered by the runs.",
+             " source_next_is_model: one pass through the loop of NodeIter::next as TRANSLATED from iter.rs on every run (statement-level Rust-subset translator, the two transcode calls as parameters) equals the model's IterSt.step for every type, target, depth limit and state; NodeIter::default likewise."
+             ' rooted_limited_exact: root() analysed for EVERY state length D; the rooted iterator yields exactly the subtree cut off at depth D - |root| (capacity errors as Err(depth)), lifted by the root depth, then None for ever.',
+        note="The transcoding calls inside NodeIter::next are parameters of the translated loop body (tied to the model's transcoding by hypothesis).",
         tech='Lean 4 proof (generalised enumeration theorem over the cut-off type, simulation for roots) + correspondence and brute-force oracle'),
 
     "C01": dict(
-        text='Lean 4 theorems on the value-level walk model (every container/wrapper/attribute, every runtime state, every key source, arbitrary (de)serializer): failed_access_changes_nothing; read_never_modifies; at_most_one_leaf_changes (frame: after any access the tree is identical except for the value of at most one leaf); read_after_write (after a write that stored v, every successful read through the same key or any step-wise equivalent key source returns v, also after the documented exceptions); chain_equivalent. Every run executes random read/write histories on every instance and compares whole-tree snapshots with the Lean model and an independent Python reference interpreter; the hypotheses (Tree.WF) are evaluated on every corpus instance.',
-        note='Accessors/validators must not alias other fields (generated ones own their storage). Histories are covered as repeated single steps.',
+        text='Lean 4 theorems on the value-level walk model (every container/wrapper/attribute, every runtime state, every key source, arbitrary (de)serializer): failed_access_changes_nothing; read_never_modifies; at_most_one_leaf_changes (frame: after any access the tree is identical except for the value of at most one leaf); read_after_write (after a write that stored v, every successful read through the same key or any step-wise equivalent key source returns v, also after the documented exceptions); chain_equivalent. Every run executes random read/write histories on every instance and compares whole-tree snapshots with the Lean model and an independent Python reference interpreter; the hypotheses (Tree.WF) are evaluated on every corpus instance.'
+             ' histories: after any sequence of by-key accesses the tree is the initial tree except for leaf values (structure, attributes, runtime state and type unchanged); a history of reads leaves it identical.',
+        note='Accessors/validators must not alias other fields (generated ones own their storage).',
         tech='Lean 4 proof by mutual structural induction over the nested tree + snapshot-based correspondence/oracle'),
     "C02": dict(
         text='Lean 4 theorems: one_walk (for every well-formed tree, runtime state, operation, codec and key source the result is either pre-empted by something state/value dependent, or exactly the outcome of the type-level traversal of the erased type); operations_agree (any two operations/codecs/states of one type agree unless pre-empted); structural_depths (Ok/TooShort/TooLong carry the number of keys consumed, NotFound one more); indices_in_range; the per-node step order as equations. Every run compares serialize/deserialize/ref_any/mut_any outcomes on every instance x node path x malformed key alphabet x key representation with the model and the independent Python top-down interpreter.'
-             " source_bookkeeping_is_model and source_containers_are_model: Traversal::increment/depth, Error::increment_result, KeyLookup::lookup/len, Node::try_from and TreeKey::traverse_by_key of every built-in container (tuples 1-8, arrays, Result, Bound, Range*), as TRANSLATED from error.rs / key.rs / node.rs / impls.rs on every run, equal the model's definitions (the transparent wrappers are checked to be plain delegations).",
+             " source_bookkeeping_is_model and source_containers_are_model: Traversal::increment/depth, Error::increment_result, KeyLookup::lookup/len, Node::try_from and TreeKey::traverse_by_key of every built-in container (tuples 1-8, arrays, Result, Bound, Range*), as TRANSLATED from error.rs / key.rs / node.rs / impls.rs on every run, equal the model's definitions (the transparent wrappers are checked to be plain delegations)."
+             " source_leaves_are_model: the by-key functions of Leaf / StrLeaf / Deny as TRANSLATED from leaf.rs equal the model's walk at a leaf (surplus keys before the value, Inner(0), value changes exactly on success).",
         note='The depth of pre-empting errors (Absent/Access/Invalid) is given by the step equations and the run, not by a global theorem.',
         tech='Lean 4 proof (mutual induction relating the value-level walk to the type-level traversal) + three-way differential run'),
     "C05": dict(
-        text='Lean 4 theorems on the codec model: json_roundtrip (every integer width incl. extremes, bool, unit, Option of non-nullable types, strings without escapes, arrays, nested structs, string-tagged enums: decoding the canonical text returns the value and exactly the continuation), json_set_of_get (clean finalisation, exact byte count), postcard_roundtrip (LEB128 + zig-zag for every width, raw byte for 8 bit, bool, unit, Option, arrays, structs, enums), varint_roundtrip, write_back_identity, read_back, small_buffer_no_partial. Every run writes every sample value to every leaf, reads it back with every buffer length, writes the read text back, and does the same through postcard.',
+        text='Lean 4 theorems on the codec model: json_roundtrip (every integer width incl. extremes, bool, unit, Option of non-nullable types, strings without escapes, arrays, nested structs, string-tagged enums: decoding the canonical text returns the value and exactly the continuation), json_set_of_get (clean finalisation, exact byte count), postcard_roundtrip (LEB128 + zig-zag for every width, raw byte for 8 bit, bool, unit, Option, arrays, structs, enums), varint_roundtrip, write_back_identity, read_back, small_buffer_no_partial. Every run writes every sample value to every leaf, reads it back with every buffer length, writes the read text back, and does the same through postcard.'
+             ' postcard_roundtrip now covers strings of any Unicode text (UTF-8 encoder/decoder round trip proved).',
         note='serde-json-core / postcard / ryu are modelled, not verified (tied by the differential run). Not theorems: floats (opaque), postcard strings (UTF-8), JSON escapes.',
         tech='Lean 4 proof (digit/varint inductions, mutual induction over values) over a hand-written codec model + exhaustive-over-corpus correspondence'),
     "C12": dict(
@@ -128,7 +133,8 @@ CLAIMED = {
              "messages (interleaving independence); foreign topic / missing or unknown cd / missing code change nothing; "
              "normalize returns empty-or-absolute. Every run drives BOTH real Python clients (through stub paho/aiomqtt "
              "modules) and the Lean model on random concurrent request histories with interleaved, duplicate, late and "
-             "malformed messages and compares each caller's result; an independent reference reading of the history is the oracle.",
+             "malformed messages and compares each caller's result; an independent reference reading of the history is the oracle."
+             " source_dispatch_is_model: the dispatcher decision tables extracted from the Python AST of async_.py and sync.py on every run (run by the Lean driver against the real clients) equal the model's dispatch; _Path.normalize as translated from common.py equals the model's normalize and its assert never fails.",
         note="Thread/asyncio scheduling is not modelled: dispatcher steps are atomic (they are, per client, by the GIL + paho "
              "callback thread / single event loop). uuid1 freshness is a hypothesis. Trusted: stub MQTT modules, pydriver.py.",
         tech="Lean 4 proof (induction over message lists) + model-vs-implementation correspondence against both real Python clients"),
